@@ -1086,11 +1086,79 @@ class Extractor:
                 # specification of `enumerate`, and only a prophetic one of `filter`; loops take invariants.
                 if spec.external:
                     continue
-                ms = [x for x in flex(e['anchor']).finditer(seg) if mask[lo + x.start()]]
-                if len(ms) != 1:
-                    raise LostAnchor('%s: fn %s: pipeline source `%s` found %d times' % (rel, spec.name, e['anchor'], len(ms)))
-                m = ms[0]
-                a0, a1 = lo + m.start(), lo + m.end()
+                if e['anchor'] == 'auto':
+                    # the one pipeline of the function: `<postfix chain> [.enumerate()] .map(|..| ..) / .filter(|..| ..) .collect..()`; its source
+                    # expression is found structurally (walking the postfix chain backwards), so renamed parameters or a hoisted local keep the anchor
+                    cands = []
+                    for x in re.finditer(r'\.\s*(?:enumerate\s*\(\s*\)\s*\.\s*)?(?:map|filter)\s*\(\s*\|', seg):
+                        if not mask[lo + x.start()]:
+                            continue
+                        po_ = lo + x.end() - 1
+                        while text[po_] != '(':
+                            po_ -= 1
+                        pc_ = match_close(text, mask, po_)
+                        if re.compile(r'\s*\.\s*collect\b').match(text, pc_ + 1):
+                            cands.append(lo + x.start())
+                    if len(cands) != 1:
+                        raise LostAnchor('%s: fn %s: %d iterator pipelines ending in collect (rule R20 expects one)' % (rel, spec.name, len(cands)))
+                    a1 = cands[0]
+                    j = a1
+                    while True:
+                        k = j - 1
+                        while k > bopen and text[k].isspace():
+                            k -= 1
+                        if text[k] in ')]':
+                            depth = 0
+                            while k > bopen:
+                                if mask[k]:
+                                    if text[k] in ')]':
+                                        depth += 1
+                                    elif text[k] in '([':
+                                        depth -= 1
+                                        if depth == 0:
+                                            break
+                                k -= 1
+                            j = k
+                            continue
+                        if text[k] == '?':
+                            j = k
+                            continue
+                        if text[k].isalnum() or text[k] == '_':
+                            while text[k - 1].isalnum() or text[k - 1] == '_':
+                                k -= 1
+                            j = k
+                            q = k - 1
+                            while q > bopen and text[q].isspace():
+                                q -= 1
+                            if text[q] == '.':
+                                j = q
+                                continue
+                            if text[q] == ':' and text[q - 1] == ':':
+                                j = q - 1
+                                continue
+                            break
+                        if text[k] == '>' :   # turbofish / generic arguments `::<..>`
+                            depth = 0
+                            while k > bopen:
+                                if text[k] == '>':
+                                    depth += 1
+                                elif text[k] == '<':
+                                    depth -= 1
+                                    if depth == 0:
+                                        break
+                                k -= 1
+                            j = k
+                            continue
+                        break
+                    a0 = j
+                    if a0 >= a1:
+                        raise LostAnchor('%s: fn %s: cannot delimit the source expression of the pipeline' % (rel, spec.name))
+                else:
+                    ms = [x for x in flex(e['anchor']).finditer(seg) if mask[lo + x.start()]]
+                    if len(ms) != 1:
+                        raise LostAnchor('%s: fn %s: pipeline source `%s` found %d times' % (rel, spec.name, e['anchor'], len(ms)))
+                    m = ms[0]
+                    a0, a1 = lo + m.start(), lo + m.end()
                 pos = a1
                 men = re.compile(r'\s*\.\s*enumerate\s*\(\s*\)').match(text, pos)
                 if men:
